@@ -122,7 +122,10 @@ def _rand_job(args):
         A *= 10.0 ** rng.integers(-4, 5)
         detail = {"kind": "random", "shape": [m, n], "rank": r, "A": A.tolist()}
         t = rec.new("rank", "random", detail)
-        rec.eqint(t, "RankIsNumberOfNonzeroSingularValues", int(u.rank(q_from_float(A))), r)
+        sv = osvals(A)
+        thr = np.finfo(float).eps * max(m, n) * (sv[0] if len(sv) else 0.0)
+        if not (len(sv) and np.any((sv > 1e-3 * thr) & (sv < 1e3 * thr))):     # no singular value at the documented threshold
+            rec.eqint(t, "RankIsNumberOfNonzeroSingularValues", int(u.rank(q_from_float(A))), int(np.sum(sv > thr)))
         nullspace_measure(rec, None, detail, A, r)
         if m == n and r == n:
             B = rng.standard_normal((n, n, 4))
@@ -160,6 +163,9 @@ def run(ctx, replay=None):
     recs += par.pmap(_rand_job, [(ctx.seed * 43 + i, 20) for i in range(24 if thorough else 6)], chunk=1)
     events, info = S.merge(recs)
     S.judge(ctx, events, info)
+    # system-level stage: operation sequences explored by TLC on Library.tla (cross-routine rank consistency)
+    from .. import libprog
+    libprog.stage(ctx, thorough, ctx.seed)
     ctx.sample({"direction": "F", "class": {k: cl[40][k] for k in ("kind", "m", "n", "s")}, "expected": cl[40]["out"]})
     ctx.sample({"direction": "B", "event": events[6]})
     ctx.notes["determinant_pairs"] = len(pairs)
